@@ -12,6 +12,7 @@ input type permits:
 * `TotalOrder + AtLeastOnce` ⇒ stuttering                  (`Stutter`: each element repeated in place)
 -/
 import HvHydro2.Model.Ops
+import HvHydro2.Lemmas.Keyed
 import HvHydro2.Gen.C32Sites
 import Mathlib.Order.Defs.LinearOrder
 import Mathlib.Data.Int.Order.Basic
@@ -309,46 +310,6 @@ theorem isEmpty_perm_invariant {α : Type} {l l' : List α} (h : l ~ l') :
 
 section keyed
 variable {κ : Type} [BEq κ] [LawfulBEq κ]
-
-theorem aux_lookup_upsert {β : Type} (m : List (κ × β)) (k k' : κ) (g : Option β → β) :
-    lookup (upsert m k g) k' = if k == k' then some (g (lookup m k)) else lookup m k' := by
-  induction m with
-  | nil =>
-    by_cases h : k == k' <;> simp [upsert, lookup, h]
-  | cons e rest ih =>
-    obtain ⟨k0, b⟩ := e
-    by_cases h0 : k0 == k
-    · have e0 : k0 = k := eq_of_beq h0
-      subst e0
-      by_cases h : k0 == k' <;> simp [upsert, lookup, h]
-    · by_cases h : k == k'
-      · have e1 : k = k' := eq_of_beq h
-        subst e1
-        simp [upsert, lookup, h0, ih]
-      · by_cases h1 : k0 == k' <;> simp [upsert, lookup, h0, h1, ih, h]
-
-/-- a keyed accumulation step by step: `g v old` is the new accumulator of the key of `(k, v)` -/
-def foldUp {α β : Type} (g : α → Option β → β) (l : List (κ × α)) (m : List (κ × β)) : List (κ × β) :=
-  l.foldl (fun m kv => upsert m kv.1 (g kv.2)) m
-
-theorem aux_group_cons {α : Type} (k k0 : κ) (v : α) (l : List (κ × α)) :
-    group k ((k0, v) :: l) = if k0 == k then v :: group k l else group k l := by
-  by_cases h : k0 == k <;> simp [group, List.filter_cons, h]
-
-/-- the accumulator of key `k` depends only on the subsequence of `k`'s values -/
-theorem aux_foldUp_lookup {α β : Type} (g : α → Option β → β) (l : List (κ × α)) (m : List (κ × β))
-    (k : κ) :
-    lookup (foldUp g l m) k = (group k l).foldl (fun o v => some (g v o)) (lookup m k) := by
-  induction l generalizing m with
-  | nil => rfl
-  | cons e rest ih =>
-    obtain ⟨k0, v⟩ := e
-    simp only [foldUp, List.foldl_cons] at ih ⊢
-    rw [ih, aux_group_cons, aux_lookup_upsert]
-    by_cases h : k0 == k
-    · have e0 : k0 = k := eq_of_beq h
-      subst e0; simp
-    · simp [h]
 
 theorem aux_group_perm {α : Type} {l l' : List (κ × α)} (h : l ~ l') (k : κ) :
     group k l ~ group k l' := (h.filter _).map _
